@@ -508,6 +508,10 @@ def _slot_compat(field: str, rops: List[str], wops: List[str]) -> Tuple[str, str
         bit, what = BIT_FLAGS[field]
         if rc == ["int", f"and:{bit}", "bool"] and wc == ["int"]:
             return R.OK, f"bool(int(v) & {bit}) <-> int(b): bit {bit} of the {what} bit field"
+        if len(rc) == 2 and rc[0] == "int" and rc[1] in (f"eq:{bit}", "ne:0"):
+            return R.VIOL, (f"the slot is the '{what}' BIT FIELD of the format and '{field}' is its bit {bit}: comparing the whole value "
+                            f"({rc[1].replace(':', ' ')}) reads {field} {'off' if rc[1].startswith('eq') else 'on'} whenever another flag is "
+                            f"set too (9 = kiai + omit first barline), and the writer then emits the changed flag")
         if rc == ["int", "bool"]:
             return R.VIOL, (f"the slot is the '{what}' BIT FIELD of the format and '{field}' is its bit {bit}: bool(int(v)) reads any other "
                             f"flag (8 = omit first barline) as {field} on, and the writer then emits {field} = 1")
